@@ -15,6 +15,7 @@ VARIABLES rec, orig, net, depth, last, prev    \* prev/last: the transition that
 vars == <<rec, orig, net, depth, last, prev>>
 
 Letters == [i \in 1..Len0 |-> ((i * i + i \div 3) % 4) + 1]
+Periodic == [i \in 1..Len0 |-> (i % 2) + 1]      \* a word that equals some of its own rotations
 MkPart(a, L, st) == Canon(Len0, [st |-> st, idx |-> IF st = -1 THEN [i \in 1..L |-> (a + L - i) % Len0]
                                                                 ELSE [i \in 1..L |-> (a + i - 1) % Len0]])
 Intervals == (0..(Len0 - 1)) \X (1..Len0)
@@ -23,10 +24,11 @@ Init == /\ rec = [seq |-> << >>, tag |-> << >>, feats |-> << >>, track |-> << >>
         /\ orig = rec /\ prev = rec /\ net = <<0, 0>> /\ depth = -1 /\ last = <<"Init">>
 \* stage 0: choose the record (so that the exploration below is spread over all workers)
 Build == /\ depth = -1
-         /\ \E iv \in Intervals, st \in {1, -1}, src \in BOOLEAN, iv2 \in (IF TwoParts THEN Intervals ELSE {}) \cup {<<0, 0>>} :
+         /\ \E iv \in Intervals, st \in {1, -1}, src \in BOOLEAN, iv2 \in (IF TwoParts THEN Intervals ELSE {}) \cup {<<0, 0>>},
+               word \in {Letters, Periodic} :
               LET p1 == MkPart(iv[1], iv[2], st)
                   ps == IF iv2[2] = 0 THEN <<p1>> ELSE <<p1, MkPart(iv2[1], iv2[2], st)>>
-                  r  == [seq |-> Letters, tag |-> [i \in 1..Len0 |-> i],
+                  r  == [seq |-> word, tag |-> [i \in 1..Len0 |-> i],
                          feats |-> << [lab |-> IF src THEN "source" ELSE "misc", parts |-> ps] >>,
                          track |-> [i \in 1..Len0 |-> 10 + i], meta |-> 7]
               IN rec' = r /\ orig' = r /\ prev' = r
